@@ -101,7 +101,7 @@ Definition is_LRead (l : lastop) : bool := match l with LRead => true | _ => fal
    write and a following read (the property's wording of ISO C 7.19.5.3 §6) *)
 Definition disc1_step (l : lastop) (o : op) : option lastop :=
   match o with
-  | ORead _ | OLines _ => if is_LWrite l then None else Some LRead
+  | ORead _ | OLines _ | ONext _ => if is_LWrite l then None else Some LRead
   | OWrite _ => if is_LRead l then None else Some LWrite
   | OSeek _ _ | OFlush => Some LNone
   | OSetvbuf _ _ => Some l
@@ -158,7 +158,7 @@ Definition disc_sys_step (ts : list trk) (o : sop) : option (list trk) :=
       if negb (others_synced ts i) then None else
       if negb (t_open t) then Some ts else
       match o' with
-      | ORead _ | OLines _ =>
+      | ORead _ | OLines _ | ONext _ =>
         if is_LWrite (t_last t) || t_stale t then None
         else Some (upd_nth ts i (mkT true LRead false))
       | OWrite _ =>
